@@ -715,6 +715,204 @@ func cfSSEMessageShape(root *pkgSrc) (appliesToPost bool, injects bool) {
 	return
 }
 
+// ---- list handlers: fresh memory in, fresh memory out
+
+// cfFreshLocal: e is a local identifier all of whose definitions are `make(...)`, a composite literal, or
+// `append(<itself>, ...)` — i.e. memory created inside this call of the function.
+func (s *cfScope) cfFreshLocal(e ast.Expr) (bool, string) {
+	c := s.c
+	id, ok := e.(*ast.Ident)
+	if !ok {
+		return false, cfShort(c.root.text(e))
+	}
+	o := c.info.Uses[id]
+	if o == nil {
+		o = c.info.Defs[id]
+	}
+	if o == nil || s.params[o] || len(s.assigns[o]) == 0 {
+		return false, id.Name
+	}
+	if v, ok := o.(*types.Var); ok && c.pkg != nil && v.Parent() == c.pkg.Scope() {
+		return false, "global " + id.Name
+	}
+	for _, r := range s.assigns[o] {
+		switch x := r.(type) {
+		case *ast.CompositeLit:
+			continue
+		case *ast.CallExpr:
+			if f, ok := x.Fun.(*ast.Ident); ok {
+				if _, isBuiltin := c.info.Uses[f].(*types.Builtin); isBuiltin {
+					if f.Name == "make" {
+						continue
+					}
+					if f.Name == "append" && len(x.Args) > 0 {
+						if a, ok := x.Args[0].(*ast.Ident); ok && c.info.Uses[a] == o {
+							continue
+						}
+					}
+				}
+			}
+		}
+		return false, id.Name + " := " + cfShort(c.root.text(r))
+	}
+	return true, ""
+}
+
+func cfIsPool(t types.Type) bool {
+	if p, ok := t.(*types.Pointer); ok {
+		t = p.Elem()
+	}
+	n, ok := t.(*types.Named)
+	return ok && n.Obj() != nil && n.Obj().Pkg() != nil && n.Obj().Pkg().Path() == "sync" && n.Obj().Name() == "Pool"
+}
+
+type cfListFact struct{ a, b, verdict string }
+
+// cfListMemory inspects one list handler: which getter feeds the filter and whether that getter returns memory made
+// in the call (not kept anywhere); whether the slices put into the result are made in the call; any sync.Pool use.
+func (c *cfPkg) cfListMemory(handler string, filterField string) (snap cfListFact, results []cfListFact, pools []cfListFact) {
+	snap = cfListFact{handler, "unknown", "unknown: handler not found"}
+	fd, _ := c.root.funcDecl(handler)
+	if fd == nil || fd.Body == nil {
+		return
+	}
+	sc := c.cfScopeOf(fd)
+	owner := handler[:strings.Index(handler, ".")]
+	poolScan := func(fn string, body ast.Node) {
+		ast.Inspect(body, func(n ast.Node) bool {
+			if e, ok := n.(ast.Expr); ok {
+				if _, isCall := e.(*ast.CallExpr); !isCall {
+					if t := c.info.TypeOf(e); cfValid(t) && cfIsPool(t) {
+						pools = append(pools, cfListFact{fn, cfShort(c.root.text(e)), "pool"})
+						return false
+					}
+				}
+			}
+			return true
+		})
+	}
+	poolScan(handler, fd.Body)
+	// the filter call and the slice it gets
+	getter := ""
+	snap.verdict = "unknown: filter call not found"
+	ast.Inspect(fd.Body, func(n ast.Node) bool {
+		call, ok := n.(*ast.CallExpr)
+		if !ok {
+			return true
+		}
+		sel, ok := call.Fun.(*ast.SelectorExpr)
+		if !ok || sel.Sel.Name != filterField || len(call.Args) != 2 {
+			return true
+		}
+		id, ok := call.Args[1].(*ast.Ident)
+		if !ok {
+			snap.verdict = "unknown: filter argument " + cfShort(c.root.text(call.Args[1]))
+			return true
+		}
+		o := c.info.Uses[id]
+		snap.verdict = "unknown: no definition of " + id.Name
+		for _, r := range sc.assigns[o] {
+			rc, ok := r.(*ast.CallExpr)
+			if !ok {
+				snap.verdict = "shared: " + id.Name + " := " + cfShort(c.root.text(r))
+				getter = ""
+				break
+			}
+			if rc == call {
+				continue // the filter's own result assigned back
+			}
+			gs, ok := rc.Fun.(*ast.SelectorExpr)
+			if !ok || len(rc.Args) != 0 {
+				snap.verdict = "shared: " + id.Name + " := " + cfShort(c.root.text(r))
+				getter = ""
+				break
+			}
+			if s2, ok := c.info.Selections[gs]; ok && s2.Kind() == types.MethodVal && cfNamed(s2.Recv()) == owner {
+				getter = owner + "." + gs.Sel.Name
+			} else {
+				snap.verdict = "shared: " + id.Name + " := " + cfShort(c.root.text(r))
+				getter = ""
+				break
+			}
+		}
+		return true
+	})
+	if getter != "" {
+		snap.b = getter
+		gd, _ := c.root.funcDecl(getter)
+		if gd == nil || gd.Body == nil {
+			snap.verdict = "unknown: getter not found"
+		} else {
+			poolScan(getter, gd.Body)
+			gs := c.cfScopeOf(gd)
+			snap.verdict = "fresh"
+			nret := 0
+			ast.Inspect(gd.Body, func(n ast.Node) bool {
+				switch x := n.(type) {
+				case *ast.FuncLit:
+					return false
+				case *ast.ReturnStmt:
+					nret++
+					if len(x.Results) != 1 {
+						snap.verdict = "unknown: return shape"
+						return true
+					}
+					if ok, why := gs.cfFreshLocal(x.Results[0]); !ok && snap.verdict == "fresh" {
+						snap.verdict = "shared: returns " + why
+					}
+				case *ast.AssignStmt:
+					for i, l := range x.Lhs {
+						if t, _ := c.cfTarget(l); t != "" && !cfLocalRoot(c, l, gd) && snap.verdict == "fresh" {
+							r := ""
+							if i < len(x.Rhs) {
+								r = cfShort(c.root.text(x.Rhs[i]))
+							}
+							snap.verdict = "shared: writes " + t + " = " + r
+						}
+					}
+				}
+				return true
+			})
+			if nret == 0 {
+				snap.verdict = "unknown: no return"
+			}
+		}
+	}
+	// the slices of the result object
+	ast.Inspect(fd.Body, func(n ast.Node) bool {
+		cl, ok := n.(*ast.CompositeLit)
+		if !ok {
+			return true
+		}
+		tn := cfNamed(c.info.TypeOf(cl))
+		if !strings.HasPrefix(tn, "List") || !strings.HasSuffix(tn, "Result") {
+			return true
+		}
+		for _, el := range cl.Elts {
+			kv, ok := el.(*ast.KeyValueExpr)
+			if !ok {
+				results = append(results, cfListFact{handler, tn, "unknown: positional element"})
+				continue
+			}
+			t := c.info.TypeOf(kv.Value)
+			if !cfValid(t) {
+				results = append(results, cfListFact{handler, tn + "." + cfShort(c.root.text(kv.Key)), "unknown: untyped " + cfShort(c.root.text(kv.Value))})
+				continue
+			}
+			if _, isSlice := t.Underlying().(*types.Slice); !isSlice {
+				continue
+			}
+			v := "fresh"
+			if ok, why := sc.cfFreshLocal(kv.Value); !ok {
+				v = "shared: " + why
+			}
+			results = append(results, cfListFact{handler, tn + "." + cfShort(c.root.text(kv.Key)), v})
+		}
+		return true
+	})
+	return
+}
+
 func cfTuple(parts ...string) string {
 	var q []string
 	for _, p := range parts {
@@ -910,6 +1108,13 @@ func genCtxFlow(root *pkgSrc) {
 	writers := c.cfFieldWriters("serverConfig.httpContextFuncs", "httpServerHandler.httpContextFuncs")
 	sseWriters := c.cfFieldWriters("SSEServer.contextFunc")
 	ssePost, sseInject := cfSSEMessageShape(root)
+	var listSnaps, listResults, listPools []cfListFact
+	for _, hf := range [][2]string{{"promptManager.handleListPrompts", "promptListFilter"}, {"resourceManager.handleListResources", "resourceListFilter"}, {"toolManager.handleListTools", "toolListFilter"}} {
+		sn, rs, ps := c.cfListMemory(hf[0], hf[1])
+		listSnaps = append(listSnaps, sn)
+		listResults = append(listResults, rs...)
+		listPools = append(listPools, ps...)
+	}
 
 	var b strings.Builder
 	b.WriteString(header)
@@ -962,6 +1167,36 @@ func genCtxFlow(root *pkgSrc) {
 			sep = ""
 		}
 		fmt.Fprintf(&b, "  %s%s  -- %s: %s\n", cfTuple(s.fn, s.target), sep, s.fn, cfCmt(s.expr))
+	}
+	b.WriteString("]\n\n")
+	b.WriteString("/-- Where the slice a list filter receives comes from: (handler, getter, verdict). fresh = the getter returns memory it made in that call and keeps no reference to it. -/\n")
+	b.WriteString("def cfListSnapshots : List (List Nat × List Nat × List Nat) := [\n")
+	for i, f := range listSnaps {
+		sep := ","
+		if i == len(listSnaps)-1 {
+			sep = ""
+		}
+		fmt.Fprintf(&b, "  %s%s  -- %s <- %s: %s\n", cfTuple(f.a, f.b, f.verdict), sep, f.a, f.b, cfCmt(f.verdict))
+	}
+	b.WriteString("]\n\n")
+	b.WriteString("/-- The slices put into the list result objects: (handler, result field, verdict). fresh = made inside that call of the handler. -/\n")
+	b.WriteString("def cfListResults : List (List Nat × List Nat × List Nat) := [\n")
+	for i, f := range listResults {
+		sep := ","
+		if i == len(listResults)-1 {
+			sep = ""
+		}
+		fmt.Fprintf(&b, "  %s%s  -- %s: %s %s\n", cfTuple(f.a, f.b, f.verdict), sep, f.a, f.b, cfCmt(f.verdict))
+	}
+	b.WriteString("]\n\n")
+	b.WriteString("/-- Uses of a sync.Pool inside the list handlers and their getters: (function, expression). -/\n")
+	b.WriteString("def cfListPoolUses : List (List Nat × List Nat) := [\n")
+	for i, f := range listPools {
+		sep := ","
+		if i == len(listPools)-1 {
+			sep = ""
+		}
+		fmt.Fprintf(&b, "  %s%s  -- %s: %s\n", cfTuple(f.a, f.b), sep, f.a, cfCmt(f.b))
 	}
 	b.WriteString("]\n\n")
 	fmt.Fprintf(&b, "/-- `handlePost` folds `h.httpContextFuncs` over the request context first-registered-first (shape found: %s). -/\ndef cfPostFoldAscending : Bool := %s\n", shape, leanBool(shape == "ascending"))
